@@ -121,6 +121,23 @@ def idx {α : Type} (xs : List α) (i : Int) : M α :=
     | none => .error "index out of range"
   else .error "index out of range"
 
+/-- `s[i]` on a string: the byte at index i; out of range panics -/
+def strIdx (s : Str) (i : Int) : M UInt8 :=
+  if 0 ≤ i then
+    match s[i.toNat]? with
+    | some b => .ok b
+    | none => .error "index out of range"
+  else .error "index out of range"
+
+/-- `strings.IndexByte s c` -/
+def indexByte (s : Str) (c : UInt8) : Int :=
+  match Str.indexOf c s with
+  | some n => (n : Int)
+  | none => -1
+
+/-- `for i := 0; i < n; i++` -/
+def range (n : Int) : List Int := (List.range n.toNat).map Int.ofNat
+
 /-- `strings.HasPrefix s p`, `strings.HasSuffix s p` -/
 def hasPrefix (s p : Str) : Bool := Str.hasPrefix s p
 def hasSuffix (s p : Str) : Bool := Str.hasSuffix s p
